@@ -661,12 +661,12 @@ def run_region_tlc(batch_path):
 
 
 # ------------------------------------------------------------------ main
-def run_gen_tlc(job):
+def run_gen_tlc(job, put=None):
     k, nsim = job
     behs = []
     cfg = os.path.join(common.SCRATCH_BASE, "c08_gen%d_%d.cfg" % (k, os.getpid()))
     tlc.write_cfg(cfg, constants=gen_constants(True), invariants=GEN_INVARIANTS + ["Export"])
-    res = tlc.run("MC_PyLayout", cfg, on_tagged=lambda t, v: behs.append(v), collect_tags=False, workers=1,
+    res = tlc.run("MC_PyLayout", cfg, on_tagged=lambda t, v: (put or behs.append)(v), collect_tags=False, workers=1,
                   simulate={"num": nsim}, depth=3, seed=1000 * common.SEED + k + 1, java_opts=("-Xmx3g",))
     os.unlink(cfg)
     return res, behs
@@ -677,7 +677,7 @@ def corrupt_trace(line):
     out of its parent and one shifted; RegionTree must reject both nodes."""
     tr = json.loads(line)
     nodes = tr["nodes"]
-    victims = [i for i, n in enumerate(nodes) if n[3] != 0 and n[7] >= 0 and n[2] > n[1]]
+    victims = [i for i, n in enumerate(nodes) if n[3] != 0 and n[7] >= 0 and n[2] > n[1] and n[15] == 0]
     if len(victims) < 2:
         return None, None
     a, b = victims[len(victims) // 3], victims[2 * len(victims) // 3]
@@ -742,10 +742,11 @@ def corpus_part(tier, verdict):
         for h in handles:
             h.close()
         from concurrent.futures import ThreadPoolExecutor
+        used = [p for p, n in zip(paths, sizes) if n]
         with ThreadPoolExecutor(max_workers=8) as ex:
-            results = list(ex.map(run_region_tlc, [p for p, n in zip(paths, sizes) if n]))
+            results = list(ex.map(run_region_tlc, used))
         seen_selftests = 0
-        for (res, verdicts), path in zip(results, [p for p, n in zip(paths, sizes) if n]):
+        for (res, verdicts), path in zip(results, used):
             stats["tlc_states"] += res.distinct
             if not res.ok:
                 verdict.machinery_failure("TLC RegionTree on %s: %s %s %s" % (os.path.basename(path), res.violated,
@@ -797,32 +798,28 @@ def main(tier):
     njobs, nsim = (4, 1500) if tier == "quick" else (8, 20000)
     if os.environ.get("C08_ONLY") == "corpus":
         njobs, nsim = 1, 50
-    with ThreadPoolExecutor(max_workers=8) as ex:
-        results = list(ex.map(run_gen_tlc, [(k, nsim) for k in range(njobs)]))
-    behs = []
-    gen_states = 0
-    for res, bs in results:
-        gen_states += res.generated
-        if not res.ok:
-            print("MACHINERY-FAILURE property=%s TLC PyLayout: %s %s\n%s" % (PROP, res.violated, res.error, res.tail))
-            return 2
-        behs.extend(bs)
-    print("TLC PyLayout: %d random behaviours in %d runs, %d states" % (len(behs), njobs, gen_states))
+    tlc_results = []
     seen = set()
-    uniq = []
-    for b in behs:
-        d = common.digest([b["toks"], sorted(map(json.dumps, b["gaps"])), b["style"]])
-        if d not in seen:
-            seen.add(d)
-            uniq.append(b)
-    behs = uniq
+    exported = [0]
+
+    def producer(put):
+        def put_new(b):
+            exported[0] += 1
+            d = common.digest([b["toks"], sorted(map(json.dumps, b["gaps"])), b["style"]])
+            if d not in seen:
+                seen.add(d)
+                put(b)
+        with ThreadPoolExecutor(max_workers=8) as ex:
+            for res, _ in ex.map(lambda job: run_gen_tlc(job, put_new), [(k, nsim) for k in range(njobs)]):
+                tlc_results.append(res)
+
     gen_checked = 0
     gen_nodes = 0
     samples = []
     unannotated = {}
     unvisited_ctx = set()
     pending = []
-    for r in replay.pool_map(run_generated, behs, chunk=200):
+    for r in pt.stream_map(run_generated, producer, chunk=200):
         gen_checked += 1
         if "machinery" in r:
             verdict.machinery_failure(r["machinery"][:500])
@@ -836,6 +833,16 @@ def main(tier):
             samples.append(r["desc"])
         if r["fails"]:
             pending.append(r)
+    gen_states = 0
+    for res in tlc_results:
+        gen_states += res.generated
+        if not res.ok:
+            print("MACHINERY-FAILURE property=%s TLC PyLayout: %s %s\n%s" % (PROP, res.violated, res.error, res.tail))
+            return 2
+    print("TLC PyLayout: %d random behaviours in %d runs (%d distinct), %d states" % (
+        exported[0], njobs, gen_checked, gen_states))
+    if gen_checked == 0:
+        verdict.machinery_failure("no decorated tree was generated")
     for r in pending:
         for f in r["fails"]:
             key = gen_key(f, r["desc"], unvisited_ctx)
